@@ -4,9 +4,13 @@ ck.declare('V2_one_vote_per_term', f'log 0..{MAXLOG}, any RequestVote', 'granted
 ck.declare('V3_up_to_date', f'log 0..{MAXLOG}, any RequestVote', 'granted => candidate (last_term, last_index) >= own, lexicographically')
 ck.declare('V_persist_before_grant', f'log 0..{MAXLOG}', 'a granted vote / adopted term was handed to the WAL layer (with that term and candidate) before the reply')
 granted_paths = 0
-for n in range(MAXLOG + 1):
+ck.bounds['compacted voter'] = 'V1-V3 also with a compacted log: log_base_index any value in 1..2^32, 1..MAXLOG retained entries'
+for n, based in [(n, False) for n in range(MAXLOG + 1)] + [(n, True) for n in range(1, MAXLOG + 1)]:
     st = ex.new_state()
-    N = Node(st, n)
+    VB = z3.BitVec('vbase', 64) if based else U64(0)
+    if based:
+        st.assume(z3.And(z3.UGE(VB, U64(1)), z3.ULT(VB, U64(1 << 32))))
+    N = Node(st, n, base=VB)
     rv = st.fresh('RequestVote', 'rv')
     st.roots['rv'] = rv
     rv_term = rv.load(F('RequestVote', 'term'), 'u64', st).v
@@ -17,7 +21,7 @@ for n in range(MAXLOG + 1):
     res = run(st, 'RaftNode::handle_request_vote', [N.ptr, ref(frm), ref(rv)])
     ck.note_path_problem(res, f'handle_request_vote log={n}')
     for r in res:
-        wit = lambda m, r=r, N=N: {'handler': 'request_vote', 'pre': pre_dump(m, N, r.st),
+        wit = lambda m, r=r, N=N, VB=VB: {'handler': 'request_vote', 'pre': dict(pre_dump(m, N, r.st), base=mval(m, VB)),
                                    'rv': {'term': mval(m, rv_term), 'candidate': mval(m, rv_cand.id), 'last_log_index': mval(m, rv_lli), 'last_log_term': mval(m, rv_llt)}}
         if r.status == 'panic':
             ck.require(ex, 'V1_term_monotone', r.pc, None, z3.BoolVal(False), wit, lambda m, w: 'rv-panic')
@@ -45,7 +49,7 @@ for n in range(MAXLOG + 1):
                    wit, lambda m, w: 'double-vote')
         ck.require(ex, 'V2_one_vote_per_term', r.pc, z3.And(z3.Not(granted), term1 == N.term0.v), same_vote, wit, lambda m, w: 'vote-changed')
         own_t = N.log0[-1] if n else U64(0)
-        own_i = U64(n)
+        own_i = z3.simplify(VB + U64(n))
         ck.require(ex, 'V3_up_to_date', r.pc, granted,
                    z3.Or(z3.UGT(rv_llt, own_t), z3.And(rv_llt == own_t, z3.UGE(rv_lli, own_i))), wit, lambda m, w: 'stale-candidate')
         # persistence: a grant implies a persist_term_and_vote(term1, Some(candidate)) note on the path
